@@ -94,8 +94,8 @@ class Ref:
             "bonds": {tuple(sorted(b)): dict(v) for b, v in self.bonds.items()},
             "atom_stereo": dict(self.atom_stereo),
             "bond_stereo": {tuple(sorted(b)): v for b, v in self.bond_stereo.items()},
-            "atom_changes": {a: dict(v) for a, v in self.atom_changes.items() if v},
-            "bond_changes": {tuple(sorted(b)): dict(v) for b, v in self.bond_changes.items() if v},
+            "atom_changes": {a: dict(v) for a, v in self.atom_changes.items()},  # an entry without descriptors is visible (and never legitimate)
+            "bond_changes": {tuple(sorted(b)): dict(v) for b, v in self.bond_changes.items()},
         }
 
     def describe(self):
